@@ -3,7 +3,7 @@ import json, os, time
 import vlib
 
 PID = "C19"
-GEN_CFG = "CONSTANTS N = %d\nSPECIFICATION Spec\nINVARIANTS T1 T1sym Emit\nCHECK_DEADLOCK FALSE\n"
+GEN_CFG = "CONSTANTS N = %d\nSPECIFICATION Spec\nINVARIANTS T1 T1sym T1big Emit\nCHECK_DEADLOCK FALSE\n"
 
 
 def describe(e):
